@@ -167,23 +167,6 @@ Section DistPrimCircle.
   Definition line_to_circle (pow23 : F -> F) (lp ld c : V3 F) (r : F) (n : V3 F) : F * V3 F * V3 F :=
     let '(d, c1, c2, _) := line_to_circle_full pow23 lp ld c r n in (d, c1, c2).
 
-  (** point_to_circle as in the CURRENT /repo (commit 8d1302d: in the on-axis arm
-      `dist = np.linalg.norm(point - closest_point_circle)` instead of sqrt(r*r + h*h));
-      identical to [DistPrim.point_to_circle_full] except for that line.  To be replaced by
-      [DistPrim.point_to_circle_full] once Model/DistPrim.v follows that commit. *)
-  Definition point_to_circle_full_cur (p c : V3 F) (r : F) (n : V3 F) (eps : F) : F * V3 F * nat :=
-    let diff := vsub p c in
-    let dist_to_plane := dot diff n in
-    let dip := vsub diff (vscale dist_to_plane n) in
-    let sqr_len := dot dip dip in
-    if eps <=? sqr_len then
-      let cp := vadd c (vscale (r / sqrt sqr_len) dip) in
-      (norm (vsub p cp), cp, 0%nat)
-    else
-      let pd := norm_vector (perpendicular_to_vector n) in
-      let cp := vadd c (vscale r pd) in
-      (norm (vsub p cp), cp, 1%nat).
-
   (** np.where(segment_direction != 0.0)[0][0]: first index with a non-zero component *)
   Definition first_nonzero (v : V3 F) : option nat :=
     if neqb (vx v) zero then Some 0%nat
@@ -202,10 +185,10 @@ Section DistPrimCircle.
       let t := (nthv cps comparison_dimension - nthv s comparison_dimension)
                / nthv sd comparison_dimension in
       if t <? zero then
-        let '(dist, cpc, arm) := point_to_circle_full_cur s c r n eps in
+        let '(dist, cpc, arm) := point_to_circle_full s c r n eps in
         (dist, s, cpc, false, (tag + 1000 + 400 * arm)%nat)
       else if len <? t then
-        let '(dist, cpc, arm) := point_to_circle_full_cur e c r n eps in
+        let '(dist, cpc, arm) := point_to_circle_full e c r n eps in
         (dist, e, cpc, false, (tag + 2000 + 400 * arm)%nat)
       else (dist, cps, cpc, true, tag)
     end.
